@@ -437,9 +437,15 @@ pub enum PatRes { None, Cap(Vec<Option<String>>), Split(Vec<String>) }
 pub struct LineOracle {
     pub res: Vec<PatRes>,
     pub json: Option<serde_json::Value>,
-    /// for the number nodes of `json` in document order: `f64::from_str` of the number's own text (its lexeme in the
-    /// line) — what a REAL column must hold, decided without serde_json's float reader. `None` when the lexemes cannot be
-    /// matched to the nodes (a repeated key dropped or moved a number).
+    /// why serde_json rejected the line (`None` when it did not): "number-out-of-range", "recursion-limit", "other"
+    pub json_reject: Option<&'static str>,
+    /// for the number nodes of `json` in document order (`number_nodes`): the number's own text (its lexeme in the line),
+    /// found by reading the line with an independent little JSON reader that keeps number texts (`lex_tree`) and walking
+    /// that tree and the document together (`node_lexemes`: arrays by position, object members by name — of a repeated
+    /// name the LAST member, the rule of `Lemmas/JsonDocPath.lean`). `None` when the two trees do not fit together (never
+    /// seen; counted as `oracle-abstains:json-real` — the REAL / INT oracle then mirrors serde_json's own reading).
+    pub lexemes: Option<Vec<String>>,
+    /// `f64::from_str` of each lexeme — what a REAL column must hold, decided without serde_json's float reader
     pub lexeme_reals: Option<Vec<f64>>,
 }
 
@@ -468,31 +474,141 @@ fn ulps_apart(a: f64, b: f64) -> u64 {
     if x > y { x - y } else { y - x }
 }
 
-/// the lexemes of the line's numbers, matched to the number nodes of the parsed document by position; a match is
-/// accepted only if every pair denotes (nearly) the same number — a repeated key can reorder or drop nodes
-fn lexeme_reals(line: &str, json: &serde_json::Value) -> Option<Vec<f64>> {
-    let toks = crate::c17::number_tokens(line);
-    let mut nodes = Vec::new();
-    number_nodes(json, &mut nodes);
-    if toks.len() != nodes.len() { return None; }
-    let mut out = Vec::new();
-    for (t, n) in toks.iter().zip(&nodes) {
-        let f = f64::from_str(t).ok()?;
-        let g = match n { serde_json::Value::Number(n) => n.as_f64()?, _ => return None };
-        if ulps_apart(f, g) > 4 { return None; }
-        out.push(f);
+/// the tree of a JSON text with every number as its own text (nothing of a number is interpreted)
+#[derive(Debug)]
+enum LexTree { Num(String), Arr(Vec<LexTree>), Obj(Vec<(String, LexTree)>), Other }
+
+/// a small reader for texts serde_json has ACCEPTED (it need not reject anything): structure, member names (decoded by
+/// `serde_json::from_str::<String>` of the name's own text), number texts. `None` on anything unexpected.
+fn lex_tree(line: &str) -> Option<LexTree> {
+    fn ws(b: &[u8], i: &mut usize) { while *i < b.len() && matches!(b[*i], b' ' | b'\t' | b'\n' | b'\r') { *i += 1; } }
+    fn string_end(b: &[u8], mut i: usize) -> Option<usize> {
+        // `i` is at the opening quote; returns the index after the closing quote
+        i += 1;
+        while i < b.len() { match b[i] { b'"' => return Some(i + 1), b'\\' => i += 2, _ => i += 1 } }
+        None
     }
-    Some(out)
+    fn value(s: &str, b: &[u8], i: &mut usize, depth: usize) -> Option<LexTree> {
+        if depth > 400 { return None; }
+        ws(b, i);
+        match *b.get(*i)? {
+            b'{' => {
+                *i += 1;
+                let mut ms = Vec::new();
+                ws(b, i);
+                if *b.get(*i)? == b'}' { *i += 1; return Some(LexTree::Obj(ms)); }
+                loop {
+                    ws(b, i);
+                    if *b.get(*i)? != b'"' { return None; }
+                    let e = string_end(b, *i)?;
+                    let key: String = serde_json::from_str(&s[*i..e]).ok()?;
+                    *i = e;
+                    ws(b, i);
+                    if *b.get(*i)? != b':' { return None; }
+                    *i += 1;
+                    let v = value(s, b, i, depth + 1)?;
+                    ms.push((key, v));
+                    ws(b, i);
+                    match *b.get(*i)? { b',' => *i += 1, b'}' => { *i += 1; return Some(LexTree::Obj(ms)); } _ => return None }
+                }
+            }
+            b'[' => {
+                *i += 1;
+                let mut xs = Vec::new();
+                ws(b, i);
+                if *b.get(*i)? == b']' { *i += 1; return Some(LexTree::Arr(xs)); }
+                loop {
+                    xs.push(value(s, b, i, depth + 1)?);
+                    ws(b, i);
+                    match *b.get(*i)? { b',' => *i += 1, b']' => { *i += 1; return Some(LexTree::Arr(xs)); } _ => return None }
+                }
+            }
+            b'"' => { *i = string_end(b, *i)?; Some(LexTree::Other) }
+            b't' | b'n' => { *i += 4; Some(LexTree::Other) }
+            b'f' => { *i += 5; Some(LexTree::Other) }
+            c if c == b'-' || c.is_ascii_digit() => {
+                let st = *i;
+                while *i < b.len() && (b[*i].is_ascii_digit() || matches!(b[*i], b'-' | b'+' | b'.' | b'e' | b'E')) { *i += 1; }
+                Some(LexTree::Num(s[st..*i].to_owned()))
+            }
+            _ => None,
+        }
+    }
+    let b = line.as_bytes();
+    let mut i = 0;
+    let t = value(line, b, &mut i, 0)?;
+    ws(b, &mut i);
+    if i == b.len() { Some(t) } else { None }
+}
+
+/// the lexemes of the document's number nodes, in the order of `number_nodes`
+fn node_lexemes(j: &serde_json::Value, l: &LexTree, out: &mut Vec<String>) -> Option<()> {
+    match (j, l) {
+        (serde_json::Value::Number(_), LexTree::Num(t)) => { out.push(t.clone()); Some(()) }
+        (serde_json::Value::Array(xs), LexTree::Arr(ls)) => {
+            if xs.len() != ls.len() { return None; }
+            for (x, l) in xs.iter().zip(ls) { node_lexemes(x, l, out)?; }
+            Some(())
+        }
+        (serde_json::Value::Object(m), LexTree::Obj(ms)) => {
+            if ms.iter().any(|(k, _)| !m.contains_key(k)) { return None; }
+            for (k, x) in m {
+                // of a repeated name the LAST member is the one the document holds
+                let (_, l) = ms.iter().rev().find(|(k2, _)| k2 == k)?;
+                node_lexemes(x, l, out)?;
+            }
+            Some(())
+        }
+        (serde_json::Value::Null, LexTree::Other) | (serde_json::Value::Bool(_), LexTree::Other) | (serde_json::Value::String(_), LexTree::Other) => Some(()),
+        _ => None,
+    }
+}
+
+/// the integer a number text denotes, when it denotes one within i64 — from the text alone (digits, point, exponent as
+/// exact decimal arithmetic): `1.0` → 1, `1e2` → 100, `-0` and `-0.0` → 0, `1.5e1` → 15, `0.5` / `1e-1` / `1e19` → none
+pub fn integer_of_number_text(t: &str) -> Option<i64> {
+    let (neg, rest) = match t.strip_prefix('-') { Some(r) => (true, r), None => (false, t) };
+    let (mant, exp) = match rest.find(|c| c == 'e' || c == 'E') { Some(p) => (&rest[..p], &rest[p + 1..]), None => (rest, "") };
+    let (ip, fp) = match mant.find('.') { Some(p) => (&mant[..p], &mant[p + 1..]), None => (mant, "") };
+    if ip.is_empty() || !ip.bytes().all(|c| c.is_ascii_digit()) || !fp.bytes().all(|c| c.is_ascii_digit()) { return None; }
+    let digits: String = format!("{}{}", ip, fp);
+    let digits = digits.trim_start_matches('0');
+    if digits.is_empty() { return Some(0); }                       // a zero, whatever its exponent and sign
+    let stripped = digits.trim_end_matches('0');
+    let trailing = (digits.len() - stripped.len()) as i128;
+    // the exponent: a sign and digits; anything that cannot matter for "an integer of at most 19 digits" is out of range
+    let e: i128 = if exp.is_empty() { 0 } else {
+        let (eneg, ed) = match exp.as_bytes()[0] { b'-' => (true, &exp[1..]), b'+' => (false, &exp[1..]), _ => (false, exp) };
+        if ed.is_empty() || !ed.bytes().all(|c| c.is_ascii_digit()) { return None; }
+        let ed = ed.trim_start_matches('0');
+        if ed.len() > 30 { return None; }                           // 10^±(10^30): no integer of 19 digits
+        let v: i128 = if ed.is_empty() { 0 } else { ed.parse().ok()? };
+        if eneg { -v } else { v }
+    };
+    let scale = e - fp.len() as i128 + trailing;                    // value = stripped · 10^scale
+    if scale < 0 { return None; }                                   // a fraction remains
+    if stripped.len() as i128 + scale > 19 { return None; }         // beyond 64 bits
+    let mut v: i128 = stripped.parse().ok()?;
+    for _ in 0..scale { v *= 10; }
+    if neg { v = -v; }
+    if v >= i64::MIN as i128 && v <= i64::MAX as i128 { Some(v as i64) } else { None }
 }
 
 impl LineOracle {
-    /// `f64::from_str` of the lexeme of a number node of `self.json` (found by identity)
-    pub fn real_of(&self, node: &serde_json::Value) -> Option<f64> {
-        let reals = self.lexeme_reals.as_ref()?;
+    fn node_index(&self, node: &serde_json::Value) -> Option<usize> {
         let mut nodes = Vec::new();
         number_nodes(self.json.as_ref()?, &mut nodes);
-        let i = nodes.iter().position(|n| std::ptr::eq(*n, node))?;
-        reals.get(i).copied()
+        nodes.iter().position(|n| std::ptr::eq(*n, node))
+    }
+    /// `f64::from_str` of the lexeme of a number node of `self.json` (found by identity)
+    pub fn real_of(&self, node: &serde_json::Value) -> Option<f64> {
+        let i = self.node_index(node)?;
+        self.lexeme_reals.as_ref()?.get(i).copied()
+    }
+    /// the lexeme of a number node of `self.json` (found by identity)
+    pub fn lexeme_of(&self, node: &serde_json::Value) -> Option<&str> {
+        let i = self.node_index(node)?;
+        self.lexemes.as_ref()?.get(i).map(|s| s.as_str())
     }
 }
 
@@ -509,9 +625,16 @@ pub fn line_oracle(td: &TableDefinition, line: &str) -> LineOracle {
             RegexMode::Split => res.push(PatRes::Split(re.split(line).map(|s| s.to_owned()).collect())),
         }
     }
-    let json = serde_json::from_str::<serde_json::Value>(line).ok();
-    let lexeme_reals = json.as_ref().and_then(|j| lexeme_reals(line, j));
-    LineOracle { res, json, lexeme_reals }
+    let (json, json_reject) = match serde_json::from_str::<serde_json::Value>(line) {
+        Ok(j) => (Some(j), None),
+        Err(e) => {
+            let msg = e.to_string();
+            (None, Some(if msg.contains("number out of range") { "number-out-of-range" } else if msg.contains("recursion limit") { "recursion-limit" } else { "other" }))
+        }
+    };
+    let lexemes = json.as_ref().and_then(|j| { let t = lex_tree(line)?; let mut out = Vec::new(); node_lexemes(j, &t, &mut out)?; Some(out) });
+    let lexeme_reals = lexemes.as_ref().and_then(|ls| ls.iter().map(|t| f64::from_str(t).ok()).collect::<Option<Vec<f64>>>());
+    LineOracle { res, json, json_reject, lexemes, lexeme_reals }
 }
 
 pub fn json_sexp(v: &serde_json::Value, out: &mut String) {
@@ -700,18 +823,47 @@ fn json_follow<'a>(steps: &[GStep], j: &'a serde_json::Value) -> Option<&'a serd
 }
 
 /// a REAL fed from a JSON number is `f64::from_str` of the number's text where the text can be got at (`real_of`),
-/// serde_json's own reading otherwise
-fn no_coercion(t: &ValueType, j: &serde_json::Value, real_of: &dyn Fn(&serde_json::Value) -> Option<f64>) -> Value {
+/// serde_json's own reading otherwise.
+///
+/// INT from a JSON number — observation N1 of DESIGN.md section 0. The sentence: "INT only from integers within 64 bits
+/// … NULL when the JSON value has another type". It DECIDES: an integer literal (digits, optional minus) within i64 other
+/// than `-0` → that INT; a number that is no integer (`0.5`) or lies outside i64 → NULL. It does NOT decide the number
+/// literals whose VALUE is an integer within 64 bits but which are written with a fraction, an exponent or as `-0`
+/// (`1.0`, `1e2`, `-0`, `-0.0`, `1.5e1`): "an integer" can be read as a property of the value or of the literal.
+/// `lenient = false` gives serde_json's classification (what the code does, what the Lean model states exactly:
+/// `Props/C02.int_column_from_literal`) — NULL for those; `lenient = true` gives the INT of the same numeric value. The
+/// oracle accepts either (`oracle-accepts-either:int-from-integral-literal`); the correspondence with the Lean model
+/// still reports any change of behaviour.
+fn no_coercion(t: &ValueType, j: &serde_json::Value, lo: &LineOracle, lenient: bool) -> Value {
     match (t, j) {
         (ValueType::Int, serde_json::Value::Number(n)) => {
             if let Some(u) = n.as_u64() { if u <= i64::MAX as u64 { Value::Int(u as i64) } else { Value::Null } }
-            else if n.is_i64() { Value::Int(n.as_i64().unwrap()) } else { Value::Null }
+            else if n.is_i64() { Value::Int(n.as_i64().unwrap()) }
+            else if lenient {
+                // the number's own text decides whether it denotes an integer within 64 bits; without the text (never
+                // seen) the REAL serde_json made of it, when that is a whole number small enough to be exact
+                match lo.lexeme_of(j) {
+                    Some(t) => integer_of_number_text(t).map(Value::Int).unwrap_or(Value::Null),
+                    None => match n.as_f64() { Some(f) if f.fract() == 0.0 && f.abs() < 9007199254740992.0 => Value::Int(f as i64), _ => Value::Null },
+                }
+            } else { Value::Null }
         }
-        (ValueType::Float, serde_json::Value::Number(n)) => Value::Float(Float(real_of(j).unwrap_or_else(|| n.as_f64().unwrap()))),
+        (ValueType::Float, serde_json::Value::Number(n)) => Value::Float(Float(lo.real_of(j).unwrap_or_else(|| n.as_f64().unwrap()))),
         (ValueType::Bool, serde_json::Value::Bool(b)) => Value::Bool(*b),
         (ValueType::String, serde_json::Value::String(s)) => Value::String(s.clone()),
-        (ValueType::Array(e), serde_json::Value::Array(xs)) => Value::Array(*e.clone(), xs.iter().map(|x| no_coercion(e, x, real_of)).collect()),
+        (ValueType::Array(e), serde_json::Value::Array(xs)) => Value::Array(*e.clone(), xs.iter().map(|x| no_coercion(e, x, lo, lenient)).collect()),
         _ => Value::Null,
+    }
+}
+
+/// does `got` agree, position by position, with one of the two permitted readings (`a` / `b`) — for an array each
+/// element may follow either reading
+fn agrees_elementwise(got: &Value, a: &Value, b: &Value) -> bool {
+    if same(got, a) || same(got, b) { return true; }
+    match (got, a, b) {
+        (Value::Array(tg, gs), Value::Array(ta, xs), Value::Array(tb, ys)) =>
+            tg == ta && ta == tb && gs.len() == xs.len() && xs.len() == ys.len() && gs.iter().zip(xs.iter().zip(ys)).all(|(g, (x, y))| agrees_elementwise(g, x, y)),
+        _ => false,
     }
 }
 
@@ -777,9 +929,13 @@ pub fn spec_column(td: &TableDefinition, c: &ColumnDefinition, lo: &LineOracle, 
                     if c.options.convert {
                         match v { serde_json::Value::String(s) => Spec { main: literal(&c.column_type, s), alt: None, why: "json-convert".to_owned() }, _ => Spec { main: Value::Null, alt: None, why: "json-convert-nonstring".to_owned() } }
                     } else {
-                        let m = no_coercion(&c.column_type, v, &|n| lo.real_of(n));
+                        let m = no_coercion(&c.column_type, v, lo, false);
+                        let m2 = no_coercion(&c.column_type, v, lo, true);
                         let why = if m.is_null() { "json-other-type" } else if *base_type(&c.column_type) == ValueType::Float && lo.lexeme_reals.is_some() { "json-real-lexeme" } else { "json-value" };
-                        Spec { main: m, alt: None, why: why.to_owned() }
+                        // observation N1: where the sentence does not decide (an integral value written `1.0`, `1e2`, `-0`) both
+                        // NULL and the INT are accepted, element by element
+                        let alt = if same(&m, &m2) { None } else { Some(m2) };
+                        Spec { main: m, alt, why: why.to_owned() }
                     }
                 }
             }
@@ -833,6 +989,18 @@ pub fn col_mod(c: &ColumnDefinition) -> String {
 pub fn run_case(run: &mut Run, td: &TableDefinition, def_text: &str, line: &str, shape: &str) {
     let lo = line_oracle(td, line);
     let specs: Vec<Spec> = td.columns.iter().map(|c| spec_column(td, c, &lo, line)).collect();
+    let any_json_col = td.columns.iter().any(|c| matches!(c.parsing, ColumnParsing::Json(_)));
+    if any_json_col {
+        // how often the REAL / INT oracle has the numbers' own texts, and how often it would have to mirror serde_json
+        if lo.json.is_some() { run.count(if lo.lexeme_reals.is_some() { "oracle-json-number-texts:matched" } else { "oracle-abstains:json-real" }); }
+        // observation N2: an RFC 8259 text that serde_json rejects for one of its own limits voids every JSON column
+        match lo.json_reject { Some("number-out-of-range") => run.count("n2:line-voided:number-out-of-range"), Some("recursion-limit") => run.count("n2:line-voided:recursion-limit"), _ => {} }
+        for (c, s) in td.columns.iter().zip(&specs) {
+            if matches!(c.parsing, ColumnParsing::Json(_)) && !c.options.convert && s.alt.is_some() && (s.why == "json-other-type" || s.why == "json-value") {
+                run.count("oracle-accepts-either:int-from-integral-literal");
+            }
+        }
+    }
     let spec_row: Vec<Value> = specs.iter().map(|s| s.main.clone()).collect();
     let desc = || format!("definition: {} || line: {:?}", def_text.replace('\n', " "), line);
     let got = catch(|| td.extract(line));
@@ -878,7 +1046,7 @@ pub fn run_case(run: &mut Run, td: &TableDefinition, def_text: &str, line: &str,
         return;
     }
     for (i, (c, s)) in td.columns.iter().zip(&specs).enumerate() {
-        let ok = same(&row[i], &s.main) || s.alt.as_ref().map(|a| same(&row[i], a)).unwrap_or(false);
+        let ok = same(&row[i], &s.main) || s.alt.as_ref().map(|a| agrees_elementwise(&row[i], &s.main, a)).unwrap_or(false);
         if !ok {
             let class = if s.why == "ts-part1-absent" && matches!(row[i], Value::Timestamp(_)) { format!("D52:ts-month-absent-becomes-january:{}", col_mod(c)) }
                 else if s.why == "json-real-lexeme" && off_by_ulps(&row[i], &s.main) { format!("D66:json-real-not-f64-from-str-of-its-text:{}", type_name(&c.column_type)) }
@@ -1405,12 +1573,46 @@ pub fn fixed_cases(run: &mut Run) {
     }
 }
 
+/// observation N2 (DESIGN.md section 0): "valid JSON" is read as "accepted by the JSON parser the program uses, with its
+/// documented limits" — serde_json's recursion limit (at most 127 nested containers, arrays AND objects count) and
+/// `NumberOutOfRange`. Lines in which `.x` is the integer 1 and a sibling member nests 125 … 129 / 200 levels deep or
+/// holds `1e400`: at total depth ≤ 127 the row is `1, …`; from depth 128 on (and with `1e400` anywhere) serde_json
+/// rejects the whole line, every JSON column has its DEFAULT and a NOT NULL column drops the row. The Lean model
+/// (`JsonDoc.docOfLine`: `maxDepth`) must say the same on every one of them.
+pub fn limit_cases(run: &mut Run) {
+    let defs = [
+        "CREATE TABLE t ({ .x } => x INT, { .y[0] } => y INT[] DEFAULT NULL, { .z } => z TEXT DEFAULT 'dflt');",
+        "CREATE TABLE t ({ .x } => x INT NOT NULL, { .y.a } => y BOOLEAN);",
+    ];
+    for def in defs {
+        with_def(run, def, &mut |run, td| {
+            for total in [125usize, 126, 127, 128, 129, 200] {
+                let d = total - 1;                                   // the outer object is one level
+                let arrays = format!("{}{}", "[".repeat(d), "]".repeat(d));
+                let arrays1 = format!("{}1{}", "[".repeat(d), "]".repeat(d));
+                let objects = format!("{}null{}", "{\"a\":".repeat(d), "}".repeat(d));
+                let mixed = format!("{}0{}", "[{\"a\":".repeat(d / 2), "}]".repeat(d / 2));
+                for y in [&arrays, &arrays1, &objects, &mixed] {
+                    run_case(run, td, def, &format!("{{\"x\":1,\"y\":{},\"z\":\"s\"}}", y), &format!("depth-{}", total));
+                    run_case(run, td, def, &format!("{{\"y\":{}, \"x\": 1}}", y), &format!("depth-{}", total));
+                }
+                // the document itself an array: depth without an outer object
+                run_case(run, td, def, &format!("{}{}", "[".repeat(total), "]".repeat(total)), &format!("depth-{}", total));
+            }
+            for l in ["{\"x\":1,\"y\":1e400}", "{\"x\":1,\"y\":[-1e400],\"z\":\"s\"}", "{\"y\":{\"a\":2e308},\"x\":1}", "{\"x\":1,\"y\":1e308}", "{\"x\":1,\"y\":[1.7976931348623158e308]}", "{\"x\":1,\"y\":[1.7976931348623159e308]}"] {
+                run_case(run, td, def, l, "number-range");
+            }
+        });
+    }
+}
+
 pub fn run(property: &str, p: &Params, json: bool) -> Run {
     let mut run = Run::new(property);
     let mut rng = Rng::new(p.seed ^ if json { 0xC02C02 } else { 0xC01C01 });
     fixed_cases(&mut run);
     if json {
         json_sweep(&mut run, &mut rng);
+        limit_cases(&mut run);
         // JSON columns, alone and mixed with regex columns
         random_cases(&mut run, &mut rng, p.n(140, 6000), p.n(6, 10), 10);
         random_cases(&mut run, &mut rng, p.n(260, 9000), p.n(6, 10), 5);
